@@ -14,6 +14,7 @@ twin I <kind> <blocking> <nmw> <bfmt> <body> <j><b><s><r> <ok|err> <code> <order
                                 -> I <ok|rej N|fail|-> exec <inline|offreader> links <k>
    (order, view offset, query and id only steer the implementation run: the routes must agree whatever they are)
 ```
+nest I <depth 1..3> <mount> <rel> <hasBody>  spy behind nested derived structs -> I segs k t… | I replaced | I err N
 dreset I <lock kind 0..3>       fresh derived struct (`demoSpec`)            (no observation)
 dstruct I <root> <path> <bfmt> <body> <canonical JSON of the decoded body> <jb..> <wholeOk>
                                 -> I none | I ok <json> | I whole | I err N | I fail
@@ -95,6 +96,7 @@ def showDOut (body canon : Bytes) : DOut → String
     else if p = ["echo".toList] then "ok " ++ hexOfBytes (if body.isEmpty then nullJson else canon)
     else if p = ["ping".toList] then "ok " ++ hexOfBytes "7".toUTF8.toList
     else "called ?"
+  | .handed rest => showSegs rest
   | .err e => s!"err {e.code}"
 
 /-- callback behaviours 1..3 panic (String, &'static str, non-string payload); 0 and 4 (slow) answer -/
@@ -187,6 +189,27 @@ def stepR (r : Router.Router) (ws : List String) : Router.Router × String :=
 def step (st : St) (ws : List String) : St × String :=
   match ws with
   | ["dreset", _, lockKind] => ({ st with store := [], lockKind := natOf lockKind, poisoned := false, lockFails := false }, "")
+  | ["nest", idx, depth, mount, rel, hasBody] =>
+    -- a hand-written spy struct behind `depth` levels of `#[repe(nested)]` fields of a derived struct mounted at `mount`
+    match strOfHex mount, strOfHex rel with
+    | some mount, some rel =>
+      let names : List Str := match natOf depth with
+        | 1 => ["spy".toList]
+        | 2 => ["outer".toList, "spy".toList]
+        | _ => ["top".toList, "outer".toList, "spy".toList]
+      let n := normStructRoot mount
+      let path := n ++ (names.map fun s => '/' :: s).flatten ++ rel
+      if !mountMatches n path then (st, idx ++ " none")
+      else match relativePointer n path with
+        | none => (st, idx ++ " err 6")
+        | some q =>
+          match resolve (chainSpec names) [] (dispatchSegments Gen.routerFacts.stackSegs q) (hasBody = "1") with
+          | .ok (.foreign _ rest) => (st, idx ++ " " ++ showSegs rest)
+          -- a whole write of the nested field: the harness sends a JSON string, which serde refuses for a struct
+          | .ok (.writeWhole _) => (st, s!"{idx} err {SErr.deserialize.code}")
+          | .ok _ => (st, idx ++ " other")
+          | .error e => (st, s!"{idx} err {e.code}")
+    | _, _ => (st, idx ++ " bad-op")
   | ["dlockfail", _, b] => ({ st with lockFails := (b = "1") }, "")
   | ["dconc", idx, _root, _threads, final] =>
     -- concurrent readers while a writer stores a sequence of values at /a; afterwards /a holds the last one
